@@ -214,6 +214,7 @@ fn update<H: HashAlgorithm>(
     let mut page_set = PageSet::new(page_pool, warm_page_set);
 
     let updater = RangeUpdater::<H>::new(root, shared.clone(), write_pass, &page_cache);
+    output.range_start = updater.range_start;
 
     // one lucky thread gets the master write pass.
     match updater.update(&mut seeker, &mut output, &mut page_set, warm_ups)? {
